@@ -964,6 +964,8 @@ class Enumerator:
         is_method = fi.cls is not None and not any(
             isinstance(d, ast.Name) and d.id == "staticmethod" for d in fd.decorator_list
         )
+        if getattr(fi, "explicit_self", False):
+            args = args[1:]  # Base.m(self, ...) form
         if is_method and params:
             first = params[0]
             params = params[1:]
